@@ -352,6 +352,7 @@ impl From<&Model> for EnergyProps {
         let global_ventilation_rate = model
             .meta
             .global_ventilation_l_s
+            .filter(|_| vol_env_inh_net > 0.0)
             .map(|n_v_g| 3.6 * n_v_g / vol_env_inh_net)
             .unwrap_or_default();
 
